@@ -5,6 +5,7 @@ import (
 	"fmt"
 	"math/rand"
 	"net"
+	"os"
 	"sort"
 	"strings"
 	"sync"
@@ -79,6 +80,12 @@ func genHist(r *h.Run, idx int) histT {
 	case 19:
 		hs.Shape = "backlog-drain-only"
 		hs.D = 250 + rng.Intn(300)
+		return hs
+	case 22:
+		// the backlog is a file range only (Sendfile to a peer that does not read); writes that
+		// add nothing follow the deadline: they do not empty the backlog, the deadline stands
+		hs.Shape = "file-backlog-fire"
+		hs.D = 60 + rng.Intn(300)
 		return hs
 	}
 	hs.Dialed = idx%6 == 4
@@ -388,9 +395,44 @@ func (x *hrun) fill() (int64, bool) {
 	return total, false
 }
 
+// fillFile queues a file range behind an empty queue (the peer is not reading): the backlog holds
+// no buffer bytes at all.
+func (x *hrun) fillFile() (int64, bool) {
+	f, err := os.CreateTemp("", "vc16")
+	if err != nil {
+		return 0, false
+	}
+	defer os.Remove(f.Name())
+	defer f.Close()
+	const size = 16 << 20
+	if err := f.Truncate(size); err != nil {
+		return 0, false
+	}
+	n, err := x.srv.Sendfile(f, size)
+	if err != nil || n != size {
+		return n, false
+	}
+	bk := nbio.VerifBacklog(x.srv)
+	x.logf("file backlog: %d file bytes, %d buffer bytes in %d entries", bk.FileBytes, bk.BufBytes, bk.Entries)
+	return n, bk.FileBytes > 0 && bk.BufBytes == 0
+}
+
 func (x *hrun) runOps(rng *rand.Rand) {
 	defer atomic.AddInt64(&progress, 1)
 	switch x.hs.Shape {
+	case "file-backlog-fire":
+		total, ok := x.fillFile()
+		if !ok {
+			x.incon = fmt.Sprintf("no file-only backlog after Sendfile of %d bytes", total)
+			return
+		}
+		x.shape = append(x.shape, "file-backlog", "W", "empty-writes")
+		x.record(x.call("W", x.hs.D, "app"))
+		// nothing is added, nothing is emptied: the write deadline stands
+		_, _ = x.srv.Write(nil)
+		_, _ = x.srv.Writev([][]byte{{}, {}})
+		_, _ = x.srv.Write([]byte{})
+		return
 	case "backlog-fire", "backlog-drain-write", "backlog-drain-only":
 		total, ok := x.fill()
 		if !ok {
